@@ -1257,22 +1257,31 @@ no unit class overrides a walk, `solve`, `_solve_subunits`, `__init_subclass__` 
 library give (C3 computed by the translator, compared with the real `__mro__` by the harness on every run) -/
 theorem library_as_modelled :
     Gen.C18.overrides = [("BaseRollPass", "init_solve"), ("DiskElementUnit", "init_solve")] ∧
-    Gen.C18.initSolveOverrides =
-      [("BaseRollPass",
-        ["(self, in_profile)",
-         "super().init_solve(in_profile)",
-         "self.out_profile.cross_section = self.usable_cross_section"]),
-       ("DiskElementUnit",
-        ["(self, in_profile)",
-         "super().init_solve(in_profile)",
-         "if not self._subunits:",
-         "    self._subunits = self._SubUnitsList(self, [self.DiskElement(self, v0) for v0 in range(self.disk_element_count)])"])] ∧
+    (∃ seed : List String,
+      -- the roll pass's override only calls the inherited `init_solve` and gives the out profile its first-guess cross-section:
+      -- on every solve (old form) or only when this call created the out profile (repair of the re-solve defect, C05)
+      (seed = ["(self, in_profile)",
+               "super().init_solve(in_profile)",
+               "self.out_profile.cross_section = self.usable_cross_section"] ∨
+       seed = ["(self, in_profile)",
+               "v0 = not self.out_profile",
+               "super().init_solve(in_profile)",
+               "if v0:",
+               "    self.out_profile.cross_section = self.usable_cross_section"]) ∧
+      Gen.C18.initSolveOverrides =
+        [("BaseRollPass", seed),
+         ("DiskElementUnit",
+          ["(self, in_profile)",
+           "super().init_solve(in_profile)",
+           "if not self._subunits:",
+           "    self._subunits = self._SubUnitsList(self, [self.DiskElement(self, v0) for v0 in range(self.disk_element_count)])"])]) ∧
     Gen.C18.mentions =
       [("pyroll/core/roll_pass/base.py", "BaseRollPass.pre_processors.append(rotator_factory)")] ∧
     Gen.C18.libRegistrations = [("BaseRollPass", .pre, "append", "rotator_factory")] ∧
     Gen.C18.unitInitState = [("in_profile", "None"), ("out_profile", "None")] ∧
     libOps = opsOfLib Gen.C18.libClasses Gen.C18.libRegistrations := by
-  decide
+  refine ⟨by decide, ⟨_, ?_, rfl⟩, by decide, by decide, by decide, by decide⟩
+  first | exact Or.inl rfl | exact Or.inr rfl
 
 example : (run init (opsOfLib Gen.C18.libClasses Gen.C18.libRegistrations)).lists true 6 = some [900] := by decide
 
